@@ -1,8 +1,283 @@
 /-
-C05 — property theorems about the model in `NipyVerif.Model.C05`.
+C05 — property theorems about the model in `NipyVerif.Model.C05`
+(linear-model fits are least-squares optimal and implementation-independent).
+Only property statements and their non-vacuity examples live here.
 -/
 import NipyVerif.Lemmas.C05
 
 namespace NipyVerif.C05
+
+/-! ## Optimality -/
+
+/-- Clause "whitened residuals are orthogonal to the whitened design":
+    `wXᵀ · wresid = 0` for every successful fit. -/
+theorem normal_eq_orth {n p v : Nat} (wX : Mat n p) (wY : Mat n v) (f : Fit n p v)
+    (h : fitW wX wY = some f) : mmul (tr wX) f.wresid = fun _ _ => 0 :=
+  orth_of_spec (fitW_spec h).choose_spec.2
+
+/-- the same for the four model classes (`OLSModel`, `WLSModel`, `ARModel`, `GLSModel`):
+    the residuals of the whitened problem are orthogonal to the whitened design. -/
+theorem fit_normal_eq_orth {n p v : Nat} (w : Whitener n) (X : Mat n p) (Y : Mat n v) (f : Fit n p v)
+    (h : fit w X Y = some f) : mmul (tr (w.apply X)) f.wresid = fun _ _ => 0 := by
+  rw [fit_eq] at h; exact normal_eq_orth _ _ _ h
+
+/-- Clause "the fitted coefficients minimise the (whitened) residual sum of squares":
+    no coefficient matrix `b` has a smaller RSS in any voxel `j`. -/
+theorem ols_minimises {n p v : Nat} (wX : Mat n p) (wY : Mat n v) (f : Fit n p v)
+    (h : fitW wX wY = some f) (b : Mat p v) (j : Fin v) :
+    rss wX wY f.beta j ≤ rss wX wY b j :=
+  rss_min_of_spec (fitW_spec h).choose_spec.2 b j
+
+/-- … and for the four model classes, on the whitened design and data. -/
+theorem fit_minimises {n p v : Nat} (w : Whitener n) (X : Mat n p) (Y : Mat n v) (f : Fit n p v)
+    (h : fit w X Y = some f) (b : Mat p v) (j : Fin v) :
+    rss (w.apply X) (w.apply Y) f.beta j ≤ rss (w.apply X) (w.apply Y) b j := by
+  rw [fit_eq] at h; exact ols_minimises _ _ _ h b j
+
+/-- the reported `SSE` (hence `dispersion·(n-p)` and `MSE·df_resid`) is the minimal RSS. -/
+theorem sse_is_min_rss {n p v : Nat} (wX : Mat n p) (wY : Mat n v) (f : Fit n p v)
+    (h : fitW wX wY = some f) (j : Fin v) : f.sse j = rss wX wY f.beta j := by
+  have s := (fitW_spec h).choose_spec.2
+  rw [s.sse]; unfold rss
+  have : ∀ i, f.wresid i j = wY i j - mmul wX f.beta i j := by intro i; rw [s.wresid]; rfl
+  simp only [this]
+
+/-- `normalized_cov_beta = pinv · pinvᵀ` is the inverse of the Gram matrix of the whitened design. -/
+theorem cov_is_gram_inverse {n p v : Nat} (wX : Mat n p) (wY : Mat n v) (f : Fit n p v)
+    (h : fitW wX wY = some f) : mmul f.cov (mmul (tr wX) wX) = idm p :=
+  cov_gram_of_spec (fitW_spec h).choose_spec.2
+
+/-- `MSE = SSE / df_resid` coincides with `dispersion = SSE / (n - p)` -/
+theorem mse_eq_dispersion {n p v : Nat} (wX : Mat n p) (wY : Mat n v) (f : Fit n p v)
+    (h : fitW wX wY = some f) : mse f = f.dispersion := by
+  have s := (fitW_spec h).choose_spec.2
+  funext j; unfold mse; rw [s.dispersion, s.df]; push_cast; rfl
+
+/-! ## Invariance: parametrisation of the design -/
+
+/-- Clause "fitted values, residual variance … depend only on the design's column space, not on its
+    parametrisation": for an invertible `T`, the fit on `X T` (any of the four covariance structures)
+    has the same fitted values (`T β' = β`, hence `X T β' = X β`), whitened residuals, dispersion,
+    degrees of freedom; a contrast `c` on `X` and its image `cᵀT` on `X T` have the same effect. -/
+theorem reparam_invariant {n p v : Nat} (w : Whitener n) (X : Mat n p) (Y : Mat n v) (T Ti : Mat p p)
+    (hT : mmul T Ti = idm p) (f f' : Fit n p v)
+    (h : fit w X Y = some f) (h' : fit w (mmul X T) Y = some f') :
+    mmul T f'.beta = f.beta ∧ predicted (mmul X T) f' = predicted X f ∧ f'.wresid = f.wresid ∧
+      f'.dispersion = f.dispersion ∧ f'.dfResid = f.dfResid ∧
+      ∀ c : Vec p, tEffect f' (fun a => fsum fun b => c b * T b a) = tEffect f c := by
+  rw [fit_eq] at h h'
+  rw [apply_mmul] at h'
+  have hb := fitW_reparam_beta _ _ T Ti hT f f' h h'
+  obtain ⟨G, _, s⟩ := fitW_spec h
+  obtain ⟨G', _, s'⟩ := fitW_spec h'
+  have hr : f'.wresid = f.wresid := by rw [s'.wresid, s.wresid, mmul_assoc, hb]
+  have hs : f'.sse = f.sse := by rw [s'.sse, s.sse, hr]
+  refine ⟨hb, ?_, hr, ?_, ?_, ?_⟩
+  · unfold predicted; rw [mmul_assoc, hb]
+  · rw [s'.dispersion, s.dispersion, hs]
+  · rw [s'.df, s.df]
+  · intro c; funext j
+    have : ∀ b, f.beta b j = ∑ a, T b a * f'.beta a j := by
+      intro b; rw [← hb]; simp [mmul, fsum_eq]
+    simp only [tEffect, fsum_eq, this, Finset.sum_mul, Finset.mul_sum]
+    rw [Finset.sum_comm]
+    apply Finset.sum_congr rfl; intro b _
+    apply Finset.sum_congr rfl; intro a _; ring
+
+/-- Clause "contrast statistics depend only on the column space": the normalised covariance
+    transforms as `T cov' Tᵀ = cov`, so `(cᵀT) cov' (cᵀT)ᵀ = c cov cᵀ` for every contrast, and with
+    equal dispersion (`reparam_invariant`) every t and F statistic is unchanged. -/
+theorem reparam_covariance {n p v : Nat} (w : Whitener n) (X : Mat n p) (Y : Mat n v) (T Ti : Mat p p)
+    (hT : mmul T Ti = idm p) (f f' : Fit n p v)
+    (h : fit w X Y = some f) (h' : fit w (mmul X T) Y = some f') :
+    mmul (mmul T f'.cov) (tr T) = f.cov := by
+  rw [fit_eq] at h h'
+  rw [apply_mmul] at h'
+  exact fitW_reparam_cov _ _ T Ti hT f f' h h'
+
+/-! ## Invariance: order and grouping of voxels, rescaling -/
+
+/-- Clause "… not on the order or grouping of voxels": for *any* map `σ` of voxel indices
+    (a permutation, a single voxel, the voxels of one AR(1) bin, with or without repeats) fitting the
+    selected columns gives exactly the selected columns of the full fit. -/
+theorem voxelwise {n p v v' : Nat} (w : Whitener n) (X : Mat n p) (Y : Mat n v) (σ : Fin v' → Fin v)
+    (f : Fit n p v) (h : fit w X Y = some f) :
+    ∃ f', fit w X (fun i k => Y i (σ k)) = some f' ∧
+      f'.beta = (fun a k => f.beta a (σ k)) ∧ f'.wresid = (fun i k => f.wresid i (σ k)) ∧
+      f'.dispersion = (fun k => f.dispersion (σ k)) ∧ f'.cov = f.cov ∧ f'.dfResid = f.dfResid := by
+  rw [fit_eq] at h
+  obtain ⟨f', h1, h2, h3, _, h5, h6, h7⟩ := fitW_select _ _ σ f h
+  refine ⟨f', ?_, h2, h3, h5, h6, h7⟩
+  rw [fit_eq, apply_select w σ Y]; exact h1
+
+/-- the per-bin refit of `GeneralLinearModel.fit(model='ar1')` — `ARModel(X, l/steps)` on the columns
+    `labels_ == l` — equals, column for column, the AR fit of the whole block with that coefficient:
+    a voxel's estimates depend on its own data and its own label only. -/
+theorem glm_ar1_group_fit {n p v : Nat} (steps : Nat) (X : Mat n p) (Y : Mat n v) (lab : Fin v → Int)
+    (l : Int) (f : Fit n p v) (h : fit (.ar [(l : Rat) / (steps : Rat)]) X Y = some f) :
+    ∃ g, groupFit steps X Y lab l = some g ∧
+      g.beta = (fun a k => f.beta a ((group lab l).get k)) ∧
+      mse g = (fun k => mse f ((group lab l).get k)) := by
+  obtain ⟨g, hg, hb, _, hd, _, hdf⟩ := voxelwise _ X Y (fun k => (group lab l).get k) f h
+  refine ⟨g, hg, hb, ?_⟩
+  rw [fit_eq] at h hg
+  rw [mse_eq_dispersion _ _ g hg, mse_eq_dispersion _ _ f h, hd]
+
+/-- every voxel of a bin is really a member of that bin (the scatter `beta[:, labels_ == l] = …`
+    writes each group column back to a voxel carrying label `l`). -/
+theorem group_label {v : Nat} (lab : Fin v → Int) (l : Int) (k : Fin (group lab l).length) :
+    lab ((group lab l).get k) = l := by
+  have hm : (group lab l).get k ∈ group lab l := List.get_mem _ k
+  have := (List.mem_filter.mp hm).2
+  simpa using this
+
+/-- Clause "… or on positive rescaling of the data beyond the obvious factor": scaling the data by
+    `a` scales coefficients and residuals by `a`, the dispersion by `a²`, and leaves the normalised
+    covariance and degrees of freedom alone (so t and F statistics are unchanged for `a > 0`). -/
+theorem scale_equivariant {n p v : Nat} (w : Whitener n) (X : Mat n p) (Y : Mat n v) (a : Rat)
+    (f : Fit n p v) (h : fit w X Y = some f) :
+    ∃ f', fit w X (fun i k => a * Y i k) = some f' ∧
+      f'.beta = (fun l k => a * f.beta l k) ∧ f'.wresid = (fun i k => a * f.wresid i k) ∧
+      f'.dispersion = (fun k => a * a * f.dispersion k) ∧ f'.cov = f.cov ∧ f'.dfResid = f.dfResid := by
+  rw [fit_eq] at h
+  obtain ⟨f', h1, h2⟩ := fitW_smul _ _ a f h
+  refine ⟨f', ?_, h2⟩
+  rw [fit_eq, apply_smul]; exact h1
+
+/-- the t statistic `effect / sd` is scale invariant for `a > 0`: `effect² · var' = effect'² · var`
+    and the effects have the same sign. -/
+theorem t_stat_scale_invariant {n p v : Nat} (f f' : Fit n p v) (a : Rat) (_ha : 0 < a)
+    (hb : f'.beta = fun l k => a * f.beta l k) (hd : f'.dispersion = fun k => a * a * f.dispersion k)
+    (hc : f'.cov = f.cov) (c : Vec p) (j : Fin v) :
+    tEffect f' c j = a * tEffect f c j ∧ tVar f' c j = a * a * tVar f c j := by
+  constructor
+  · simp only [tEffect, fsum_eq, hb, Finset.mul_sum]
+    apply Finset.sum_congr rfl; intro l _; ring
+  · simp only [tVar, hc, hd]; ring
+
+/-! ## Reductions between the model classes -/
+
+/-- "Weighted least squares with unit weights … reduce exactly to ordinary least squares" -/
+theorem wls_unit_eq_ols {n p v : Nat} (X : Mat n p) (Y : Mat n v) :
+    fit (.wls fun _ => 1) X Y = fit .ols X Y := by
+  have : ∀ (k : Nat) (A : Mat n k), whitenWLS (fun _ => 1) A = A := by
+    intro k A; funext i j; simp [whitenWLS]
+  simp only [fit_eq, Whitener.apply, this]
+
+/-- "autoregressive fits with zero coefficients … reduce exactly to ordinary least squares",
+    for every order `m` (`ARModel(X, m)` initialises `rho = zeros(m)`). -/
+theorem ar_zero_eq_ols {n p v : Nat} (m : Nat) (X : Mat n p) (Y : Mat n v) :
+    fit (.ar (List.replicate m 0)) X Y = fit .ols X Y := by
+  simp only [fit_eq, Whitener.apply, whitenAR, arLoop_zero]
+
+/-- "generalised least squares with identity … covariance reduce exactly to ordinary … least squares" -/
+theorem gls_identity_eq_ols {n p v : Nat} (X : Mat n p) (Y : Mat n v) :
+    fit (.gls (idm n)) X Y = fit .ols X Y := by
+  simp only [fit_eq, Whitener.apply, whitenGLS, idm_mmul]
+
+/-- "… or diagonal covariance reduce exactly to … weighted least squares": with
+    `cholsigmainv = diag(c)` (covariance `diag(1/c²)`) GLS is WLS with weights `c²`. -/
+theorem gls_diag_eq_wls {n p v : Nat} (c : Vec n) (X : Mat n p) (Y : Mat n v) :
+    fit (.gls (diag c)) X Y = fit (.wls c) X Y := by
+  simp only [fit_eq, Whitener.apply, whitenGLS_diag]
+
+/-- AR(1) whitening, closed form of the loop: first row unchanged, then `x_t - ρ x_{t-1}`. -/
+theorem whitenAR_one {n k : Nat} (ρ : Rat) (X : Mat n k) (t : Fin n) (j : Fin k) :
+    whitenAR [ρ] X t j = if h : 1 ≤ t.1 then X t j - ρ * X ⟨t.1 - 1, by omega⟩ j else X t j := by
+  simp only [whitenAR, arLoop, arStep, Nat.zero_add]
+
+/-! ## The separate implementations denote the same estimates -/
+
+/-- "the library's separate GLM implementations … return the same estimates, variances and degrees of
+    freedom": labs `ols` (β, nvbeta, s2, dof), the models package `OLSModel.fit` (theta,
+    normalized_cov_beta, dispersion, df_resid) and the fMRI `GeneralLinearModel` (`get_beta`,
+    `get_mse`) agree field by field, and so do their t-contrast effect and variance. -/
+theorem implementations_agree {n p v : Nat} (X : Mat n p) (Y : Mat n v) (l : LabsFit p v)
+    (h : labsOls X Y = some l) :
+    ∃ f, fit .ols X Y = some f ∧ glmOls X Y = some (f.beta, f.dispersion) ∧
+      l.beta = f.beta ∧ l.nvbeta = f.cov ∧ l.s2 = f.dispersion ∧ l.dof = ((f.dfResid : Int) : Rat) ∧
+      ∀ c : Vec p, labsTEffect l c = tEffect f c ∧ labsTVar l c = tVar f c := by
+  obtain ⟨f, hf, hb, hc, hs, hd⟩ := labsOls_spec h
+  have hfit : fit .ols X Y = some f := by rw [fit_eq]; exact hf
+  refine ⟨f, hfit, ?_, hb, hc, hs, hd, ?_⟩
+  · unfold glmOls; rw [hfit]; simp only [Option.map_some]
+    rw [mse_eq_dispersion X Y f hf]
+  · intro c; constructor
+    · funext j; simp only [labsTEffect, tEffect, hb]
+    · funext j; simp only [labsTVar, tVar, hc, hs]
+
+/-- conversely labs `ols` succeeds whenever the models-package fit does (same certified inverse) -/
+theorem labs_succeeds_iff {n p v : Nat} (X : Mat n p) (Y : Mat n v) :
+    (labsOls X Y).isSome = (fit .ols X Y).isSome := by
+  rw [fit_eq]
+  unfold labsOls fitW
+  simp only [ofArr2_toArr2, Whitener.apply]
+  split <;> rfl
+
+/-! ## Kalman engine -/
+
+/-- the filter has seen every row, and its `s2` is `ssd / n` — *not* `ssd / (n - p)`; the wrapper
+    `kalman.ols` returns this `s2` (the corrected `s2_cor = n/(n-p) · s2` is computed by the C code
+    but not used).  This is the recorded finding `kalman-s2-uncorrected`. -/
+theorem kalman_s2_uncorrected {n p : Nat} (X : Mat n p) (y : Vec n) (hn : 0 < n) :
+    (kfFit X y).t = n ∧ (kfFit X y).s2 = (kfFit X y).ssd / (n : Rat) := by
+  have key : ∀ rows : List (Vec p × Rat),
+      (kfRun kfInitVar rows).t = rows.length ∧
+        (rows ≠ [] → (kfRun kfInitVar rows).s2 = (kfRun kfInitVar rows).ssd / (rows.length : Rat)) := by
+    intro rows
+    induction rows using List.reverseRecOn with
+    | nil => exact ⟨rfl, fun h => absurd rfl h⟩
+    | append_singleton rs r ih =>
+        have : kfRun kfInitVar (rs ++ [r]) = kfStep (kfRun kfInitVar rs) r.1 r.2 := by
+          simp [kfRun, List.foldl_append]
+        rw [this]
+        refine ⟨?_, fun _ => ?_⟩
+        · simp [kfStep, ih.1]
+        · simp [kfStep, ih.1]
+  have hlen : (kfRows X y).length = n := by simp [kfRows]
+  obtain ⟨h1, h2⟩ := key (kfRows X y)
+  have hne : kfRows X y ≠ [] := by
+    intro h; rw [h] at hlen; simp at hlen; omega
+  unfold kfFit
+  rw [h1, h2 hne, hlen]
+  exact ⟨rfl, rfl⟩
+
+/-- "…the labs GLM with its ordinary and Kalman-filter engines return the same estimates": the
+    Kalman recursion of `fff_glm_kalman.c` (recursive least squares from the prior `b = 0`,
+    `Vb = 1e7·I`) ends exactly at the batch solution of the *regularised* normal equations
+    `(XᵀX + λI) b = Xᵀy`, `(XᵀX + λI) Vb = I` with `λ = 1e-7` — for every design, rank deficient or
+    not.  (Sherman–Morrison induction over the rows.)  Hence `b` differs from the OLS estimate by
+    `λ (XᵀX + λI)⁻¹ b_ols`, negligible unless `XᵀX` has eigenvalues near `1e-7`. -/
+theorem kalman_is_ridge {n p : Nat} (X : Mat n p) (y : Vec n) :
+    (∀ i, ∑ k, ((if i = k then 1 / kfInitVar else 0) + ∑ t, X t i * X t k) * (kfFit X y).b k
+        = ∑ t, y t * X t i) ∧
+    (∀ i j, ∑ k, ((if i = k then 1 / kfInitVar else 0) + ∑ t, X t i * X t k) * (kfFit X y).P k j
+        = if i = j then 1 else 0) :=
+  ⟨(kfFit_inv X y).Ab, (kfFit_inv X y).AP⟩
+
+/-- the filter covariance `Vb` is symmetric after every fit (BLAS `dsymv` reads only one triangle of
+    it: the triangle is immaterial). -/
+theorem kalman_cov_symmetric {n p : Nat} (X : Mat n p) (y : Vec n) (i j : Fin p) :
+    (kfFit X y).P i j = (kfFit X y).P j i := (kfFit_inv X y).sym i j
+
+/-- the innovation variance `Vy = x·Vb·x + 1` by which the C code divides is never zero: the
+    regularised information matrix is positive semi-definite at every step. -/
+theorem kalman_information_psd {n p : Nat} (X : Mat n p) (y : Vec n) (z : Vec p) :
+    0 ≤ ∑ i, z i * ∑ k, ((if i = k then 1 / kfInitVar else 0) + ∑ t, X t i * X t k) * z k :=
+  (kfFit_inv X y).psd z
+
+/-! ## Non-vacuity: concrete non-trivial objects satisfy the hypotheses used above -/
+
+-- a 3×2 design with intercept and slope, one voxel: every fit hypothesis `… = some f` is satisfiable
+example : (fit .ols exX exY).isSome = true := by decide +kernel
+example : (fit (.wls fun i => (i.1 : Rat) + 1) exX exY).isSome = true := by decide +kernel
+example : (fit (.ar [1 / 2]) exX exY).isSome = true := by decide +kernel
+example : (fit (.gls (diag fun i => (i.1 : Rat) + 1)) exX exY).isSome = true := by decide +kernel
+example : (labsOls exX exY).isSome = true := by decide +kernel
+-- an invertible, non-orthogonal reparametrisation and the fit on the reparametrised design
+example : mmul exT exTi = idm 2 := by funext i j; fin_cases i <;> fin_cases j <;> decide +kernel
+example : (fit (.ar [1 / 2]) (mmul exX exT) exY).isSome = true := by decide +kernel
+-- the least-squares fit is not trivial here: the residual is non-zero
+example : ((fit .ols exX exY).map fun f => f.sse 0) = some (3 / 2) := by decide +kernel
 
 end NipyVerif.C05
